@@ -293,13 +293,20 @@ func (w *writer) exFresh(n int, hw int64) {
 
 // histScript: two or three epochs with rows in between, then a cut of log and history below the
 // start of a later epoch, then the history goes on.
+// histScriptRuns alternates the script between its fixed core shape (no watermark offered, the cut
+// strictly below the start of the last epoch point, so that point must disappear together with the
+// rows) and the randomized variations around it.
+var histScriptRuns int
+
 func histScript(d doer, p probes, base int64, rng *rand.Rand) {
+	histScriptRuns++
+	core := histScriptRuns%2 == 1
 	co := &coord{}
 	c := chanNames[rng.Intn(2)]
 	w := newWriter(d, "compat", p, rng, c, co, base, false, true)
 	w.beginEpoch()
 	w.appendClean(1 + rng.Intn(3))
-	if rng.Intn(2) == 0 {
+	if !core && rng.Intn(2) == 0 {
 		if hw := w.offerHW(1, w.leo); hw > 0 {
 			if res := w.r.do(kit.Ev("CkptMono", "c", w.c, "hw", hw)); w.ok(res) && hw > w.ckpt {
 				w.ckpt = hw
@@ -322,10 +329,14 @@ func histScript(d doer, p probes, base int64, rng *rand.Rand) {
 		return
 	}
 	pt := w.hist[len(w.hist)-1]
-	if len(w.hist) > 1 && rng.Intn(3) == 0 {
+	if !core && len(w.hist) > 1 && rng.Intn(3) == 0 {
 		pt = w.hist[len(w.hist)-2]
 	}
-	w.truncLogAndHistory(pt.s - int64(rng.Intn(2)))
+	if core {
+		w.truncLogAndHistory(pt.s - 1)
+	} else {
+		w.truncLogAndHistory(pt.s - int64(rng.Intn(2)))
+	}
 	for n := rng.Intn(3); n > 0; n-- {
 		if !w.histStep() {
 			break
